@@ -275,6 +275,36 @@ Section Core.
     apply orb_false_iff in E. destruct E as [R1 R2]. apply Nat.ltb_ge in R1, R2. lia.
   Qed.
 
+  (** the usize-wide entry point agrees with the nat-indexed one on every nat, and refuses everything outside the
+      window at full width (no narrowing before the comparison) *)
+  Lemma encrypt_usize_nat x pk label (sp : option nat) seed tape :
+    W_encrypt_usize W x pk label (option_map N.of_nat sp) seed tape = W_encrypt W x pk label sp seed tape.
+  Proof.
+    unfold W_encrypt_usize, W_encrypt, encrypt_with_proof_usize. destruct sp as [s|]; cbn [option_map]; [|reflexivity].
+    rewrite Nat2N.id.
+    destruct ((N.of_nat s <? N.of_nat SEC_PARAM)%N || (256 <? N.of_nat s)%N) eqn:E; [|reflexivity].
+    unfold encrypt_with_proof.
+    assert (R : ((s <? SEC_PARAM)%nat || (256 <? s)%nat) = true).
+    { apply orb_true_iff in E. apply orb_true_iff. destruct E as [E|E]; [left|right].
+      - apply N.ltb_lt in E. apply Nat.ltb_lt. lia.
+      - apply N.ltb_lt in E. apply Nat.ltb_lt. lia. }
+    rewrite R. reflexivity.
+  Qed.
+
+  Lemma venc_param_range_usize_lem x pk label (s : N) seed tape : (s < 128 \/ 256 < s)%N ->
+    W_encrypt_usize W x pk label (Some s) seed tape = Err E_INVALID_SIZE.
+  Proof.
+    intros H. unfold W_encrypt_usize, encrypt_with_proof_usize. rewrite sec_param_128.
+    destruct ((s <? N.of_nat 128)%N || (256 <? s)%N) eqn:E; [reflexivity|].
+    apply orb_false_iff in E. destruct E as [R1 R2]. apply N.ltb_ge in R1, R2. lia.
+  Qed.
+
+  Lemma encrypt_usize_in_range x pk label (s : N) seed tape : (128 <= s <= 256)%N ->
+    W_encrypt_usize W x pk label (Some s) seed tape = W_encrypt W x pk label (Some (N.to_nat s)) seed tape.
+  Proof.
+    intros H. rewrite <- (encrypt_usize_nat x pk label (Some (N.to_nat s))). cbn [option_map]. rewrite N2Nat.id. reflexivity.
+  Qed.
+
   (** C09: every produced proof verifies against x*G -- for every x, label, key, tape, oracle *)
   Lemma venc_honest_verifies_lem x pk label sp seed tape p :
     W_encrypt W x pk label sp seed tape = Val p ->
